@@ -9,7 +9,9 @@ CLAIMED = {
              "mutant variants of the spec that must be rejected; every transition of that state graph is then executed "
              "on real Continuum objects and the projected state compared with the spec's successor (spec->code), and "
              "long random histories on real objects with float times and odd labels are judged clause by clause by "
-             "TraceContinuum.tla (code->spec).",
+             "TraceContinuum.tla (code->spec). add_timeline / add_annotation (AddMany) and derived observables are "
+             "included; for unbounded histories Apalache checks that the well-formedness invariant is inductive on a "
+             "typed restatement of the model.",
         note="Trusted: TLC, the rank encoding of floats/strings (Python sort order), sortedcontainers. Histories are bounded "
              "(exhaustive to depth 4-5 on the small universe, random to length 60).",
         technique="TLA+ spec + TLC exhaustive model checking; transition-graph replay into the code; trace validation by TLC",
@@ -56,8 +58,10 @@ CLAIMED = {
     "C08": dict(
         text="Every instance (TLC-enumerated and random) is aligned twice, as installed (CBC) and with cylp masked so the "
              "library's own fallback branch runs (GLPK_MI); a probe on cvxpy.Problem.solve proves which solver ran; both "
-             "results must be partitions / covers and both must be optimal by TLC's own search (not merely equal).",
-        note="The fallback is triggered by ImportError only (a failing CBC at run time is not simulated).",
+             "results must be partitions / covers and both must be optimal by TLC's own search (not merely equal); a third "
+             "configuration injects a cvxpy SolverError into the CBC solve (cylp importable, CBC failing at run time). "
+             "Medium and dense continua beyond the search must at least get the same cost from both back-ends.",
+        note="The run-time failure of CBC is injected in the harness-side probe on cvxpy.Problem.solve, not produced by CBC itself.",
         technique="TLC trace validation of paired runs under both solver configurations; BackendFree invariant in MC_Align",
         design="4/C08"),
     "C11": dict(
@@ -95,7 +99,8 @@ CLAIMED = {
              "TLC checks separation, that no available point lies within the distance of an earlier pivot, bounds and "
              "whole-number pivots (mutant: the pre-fix interval subtraction). For real samples TraceShuffle.tla lets TLC "
              "infer, per sampled annotator, the source annotator and pivot that explain it under the wrap rule, requires "
-             "the pivot to be one of the uniform draws really made, and replays the pivots through the bookkeeping.",
+             "the pivot to be one of the uniform draws really made, and replays the pivots through the bookkeeping. "
+             "Apalache checks the bookkeeping invariant inductively for unbounded bounds, distance and pivot count.",
         note="Times in 1/1000 fixed point, tolerance 2/1000. Known finding: int() truncation in int_pivot mode (deficit < 1).",
         technique="TLA+ model of the pivot bookkeeping model-checked by TLC; recorded samples explained and judged by TLC (trace validation with inference)",
         design="4/C16"),
@@ -106,7 +111,8 @@ CLAIMED = {
              "recorded by a recording executor, recording sampler subclasses and algorithm probes and judged by "
              "TraceGamma.tla: sample count = max(n, ceil((1.96 CV/p)^2)) decided with exact big-number arithmetic in TLA+, "
              "one fresh valid sample per chance alignment in order, requested kind of alignment for input and samples, "
-             "observed/expected/gamma relations, gamma <= 1, gamma = 1 for identical annotators.",
+             "observed/expected/gamma relations, approx_gamma_range, gamma <= 1, gamma = 1 for identical annotators; "
+             "sampler objects are reused across runs with other ground-truth sets.",
         note="CV^2 enters TLC as a rational approximation (denominator <= 1e9) of the float the library computed from the "
              "logged first-batch disorders; a relative band of 1e-7 around the ceil is not judged. Named precision levels "
              "per the code's table (high 1%, medium 2%, low 10%).",
@@ -119,7 +125,8 @@ CLAIMED = {
              "for ThreadPoolExecutor (real distinct threads, one job at a time); real pools of 1/2/4/16 workers, repetition "
              "in one process and fresh processes with other PYTHONHASHSEED values complete the environments. All result "
              "vectors (observed, chance sequence, gamma, gamma-cat, gamma-k) of one configuration and seed must be "
-             "bit-identical; recorded pool events must show every draw in the main thread before its job's submission.",
+             "bit-identical; recorded pool events must show every draw in the main thread before its job's submission. "
+             "GammaRun is also checked to refine GammaAtomic (compute_gamma as one atomic step from the seed).",
         note="Interleavings inside a job (numba, cvxpy, CBC) are not modelled; exact float equality is used because the "
              "unchanged tree shows no last-bit noise.",
         technique="TLC model checking over all schedules + TLC-generated schedules replayed through a controlled executor; trace validation of pool events",
